@@ -3,7 +3,7 @@
 #ifndef TETL_CSTDLIB_ATOL_HPP
 #define TETL_CSTDLIB_ATOL_HPP
 
-#include <etl/_strings/to_integer.hpp>
+#include <etl/_strings/strto_integer.hpp>
 
 namespace etl {
 
@@ -13,7 +13,7 @@ namespace etl {
 /// number representation and converts them to an integer value.
 [[nodiscard]] constexpr auto atol(char const* str) noexcept -> long
 {
-    auto const result = strings::to_integer<long>(str);
+    auto const result = strings::detail::strto_integer<long>(str, 10);
     return result.value;
 }
 
